@@ -27,7 +27,7 @@ Definition progress_ok (c : sched_case) : bool :=
   && forallb (fun s => s <? sc_marker c) (samples c)
   (* every request was stamped with one revision; at quiescence the node has reached the last one *)
   && negb (sc_stalled c)
-  && (sc_marker c =? sc_d0 c + N.of_nat (nreqs c) + 1)
+  && (sc_d0 c + N.of_nat (nclient c) + 1 <=? sc_marker c) && (sc_marker c <=? sc_d0 c + N.of_nat (nreqs c) + 1)
   && (sc_final_committed c =? sc_marker c).
 
 Definition c04_check := sched_check.
